@@ -17,9 +17,10 @@ the endpoint was seen to do right after it: request transmissions and returns of
   came back for that request (`spuriousSuccess`) — so neither exhaustion nor a reset produces success;
 * if the matching acknowledgement — or the matching response itself, which is an implicit acknowledgement
   (RFC 7252 §5.2.2) — came back while the request was still being (re)transmitted and the attempts were not
-  exhausted (not all `1 + MAX_RETRANSMIT` copies sent yet, or all sent and the answer within the window of the
-  last copy: `notExhausted`), then as soon as the response is there (same message or
-  later) the call returns it (`noSuccess`), unless the caller cancelled first; no copy follows that response;
+  exhausted (not all `1 + MAX_RETRANSMIT` copies sent yet, or all sent and the answer no later than
+  `t0 + (MAX_RETRANSMIT+1)·ACK_TIMEOUT`, whatever housekeeping passes ran in between: `notExhausted`), then as soon as the response is there (same message or
+  later) the call returns it (`noSuccess`; `lastWindow` when the answer came in the last copy's window after a
+  housekeeping pass, defect F30), unless the caller cancelled first; no copy follows that response;
 * never more than NSTART requests transmitted and neither acknowledged/reset nor returned (`nstart`).
 -/
 namespace CoapVerif.Spec.Retransmit
@@ -65,7 +66,9 @@ structure Step where
   deriving Repr
 
 inductive Verdict
-  | ok | tooMany | tooEarly | notIdentical | copyAfterStop | unknownRequest | doubleReturn | spuriousSuccess | noSuccess | nstart
+  | ok | tooMany | tooEarly | notIdentical | copyAfterStop | unknownRequest | doubleReturn | spuriousSuccess | noSuccess
+  | lastWindow   -- `noSuccess` for an answer inside the last copy's window after a housekeeping pass had run (F30)
+  | nstart
   deriving Repr, DecidableEq
 
 /-- What the judge remembers about one request. -/
@@ -78,6 +81,8 @@ structure Rec where
   acked : Bool := false       -- a message with its ID came back (ack, reset, piggybacked response)
   inTime : Bool := false      -- … an acknowledgement / response that came back before the attempts were exhausted
   passSince : Bool := false   -- a housekeeping pass has run since the most recent copy of this request was sent
+  windowClosed : Bool := false -- a pass ran with `now` later than `t0 + (MAX+1)·ACK_TIMEOUT` after all copies were out
+  lateWindow : Bool := false  -- "in time" was established in the last copy's window after a pass had run (defect F30)
   cancelled : Bool := false
   returned : Bool := false
   resps : List Nat := []      -- responses that came back, oldest first
@@ -95,18 +100,19 @@ def setRec (s : JState) (r : Rec) : JState := { s with recs := s.recs.map (fun x
 
 /-- The attempts are not exhausted yet when the answer arrives: fewer than `1 + MAX_RETRANSMIT` copies were sent, or
     all were sent and the answer arrives within the window of the LAST copy — RFC 7252 §4.2: the sender waits for the
-    acknowledgement of its last retransmission until the next retransmission would have been due
-    (`t0 + (MAX+1)·ACK_TIMEOUT`).  Expiry can only be noticed by a housekeeping pass; this judge demands the window
-    only as long as no pass has run since the last copy was sent (see docs/notes/C06.md, O-C06-2). -/
+    acknowledgement of its last retransmission until the next retransmission would have been due,
+    `t0 + (MAX+1)·ACK_TIMEOUT`.  Housekeeping passes that run before that instant do not end the exchange; exhaustion
+    is reported by the first pass whose `now` is later than it (`windowClosed`, which only a pass with a clock ahead
+    of the wall clock can set while the wall clock is still inside the window). -/
 def notExhausted (c : Cfg) (now : Nat) (r : Rec) : Bool :=
   r.count ≤ c.maxRetransmit ||
-  (r.count == c.maxRetransmit + 1 && !r.passSince && now ≤ r.t0 + (c.maxRetransmit + 1) * c.ackTimeout)
+  (r.count == c.maxRetransmit + 1 && !r.windowClosed && now ≤ r.t0 + (c.maxRetransmit + 1) * c.ackTimeout)
 
 def live (now : Nat) (r : Rec) : Bool :=
   !r.cancelled && !r.returned && (match r.deadline with | some d => now < d | none => true)
 
 /-- Effect of the stimulus; returns the new state and the success the step must show, if any. -/
-def applyEv (c : Cfg) (s : JState) : Ev → JState × Option (Nat × Nat)
+def applyEv (c : Cfg) (s : JState) : Ev → JState × Option (Nat × Nat × Bool)
   | .send id dl =>
     if (getRec s id).isSome then (s, none)
     else ({ s with recs := s.recs ++ [{ id := id, deadline := dl.map (· + s.now) }] }, none)
@@ -114,7 +120,9 @@ def applyEv (c : Cfg) (s : JState) : Ev → JState × Option (Nat × Nat)
   | .tick ahead =>
     -- a request whose deadline lies before the housekeeping clock counts as given up by its caller
     ({ s with recs := s.recs.map (fun r =>
-        let r := { r with passSince := true }
+        let r := { r with passSince := true,
+                          windowClosed := r.windowClosed || (r.count == c.maxRetransmit + 1 &&
+                            s.now + ahead > r.t0 + (c.maxRetransmit + 1) * c.ackTimeout) }
         match r.deadline with
         | some d => if s.now + ahead > d then { r with cancelled := true } else r
         | none => r) }, none)
@@ -133,10 +141,12 @@ def applyEv (c : Cfg) (s : JState) : Ev → JState × Option (Nat × Nat)
       else
       let first := !r.stopped
       let isAck := match k with | .rst => false | _ => true
-      let inTime := r.inTime || (first && isAck && notExhausted c s.now r)
+      let fresh := !r.inTime && first && isAck && notExhausted c s.now r
+      let inTime := r.inTime || fresh
+      let late := r.lateWindow || (fresh && r.count == c.maxRetransmit + 1 && r.passSince)
       let resps := match k with | .pig tag => r.resps ++ [tag] | _ => r.resps
-      let r' := { r with stopped := true, acked := true, inTime := inTime, resps := resps }
-      let due := if inTime && live s.now r then resps.head?.map (fun tag => (id, tag)) else none
+      let r' := { r with stopped := true, acked := true, inTime := inTime, lateWindow := late, resps := resps }
+      let due := if inTime && live s.now r then resps.head?.map (fun tag => (id, tag, late)) else none
       (setRec s r', due)
     | none => (s, none)
   | .resp id _ tag =>
@@ -147,9 +157,11 @@ def applyEv (c : Cfg) (s : JState) : Ev → JState × Option (Nat × Nat)
       -- the matching response is an implicit acknowledgement (RFC 7252 5.2.2): it counts as "got back in time" when it
       -- is the first thing to come back and fewer than 1 + MAX copies were sent; no copy may follow it
       let first := !r.stopped
-      let inTime := r.inTime || (first && notExhausted c s.now r)
-      let r' := { r with stopped := true, inTime := inTime, resps := r.resps ++ [tag] }
-      let due := if inTime && live s.now r then r'.resps.head?.map (fun tag => (id, tag)) else none
+      let fresh := !r.inTime && first && notExhausted c s.now r
+      let inTime := r.inTime || fresh
+      let late := r.lateWindow || (fresh && r.count == c.maxRetransmit + 1 && r.passSince)
+      let r' := { r with stopped := true, inTime := inTime, lateWindow := late, resps := r.resps ++ [tag] }
+      let due := if inTime && live s.now r then r'.resps.head?.map (fun tag => (id, tag, late)) else none
       (setRec s r', due)
     | none => (s, none)
 
@@ -190,9 +202,12 @@ def stepJ (c : Cfg) (s : JState) (st : Step) : JState × Verdict :=
     match foldV checkRet s2 st.rets with
     | (s3, .ok) =>
       let okDue := match due with
-        | some (id, tag) => st.rets.any (fun r => r.id == id && r.res == .ok tag)
+        | some (id, tag, _) => st.rets.any (fun r => r.id == id && r.res == .ok tag)
         | none => true
-      if !okDue then (s3, .noSuccess)
+      let late := match due with
+        | some (_, _, l) => l
+        | none => false
+      if !okDue then (s3, if late then .lastWindow else .noSuccess)
       else if outstanding s3 > c.nstart then (s3, .nstart)
       else (s3, .ok)
     | (s3, v) => (s3, v)
